@@ -9,6 +9,7 @@ import (
 	"github.com/cloudwego/dynamicgo/thrift/generic"
 
 	"verif/engine/core"
+	"verif/ref/poolpoison"
 	"verif/ref/tbin"
 )
 
@@ -510,6 +511,9 @@ func run(p pair, parse, variant string) core.Result {
 			val := generic.NewValue(fd, append([]byte{}, in...))
 			out, gerr = val.MarshalTo(td, opts)
 		})
+		if pi == nil && gerr == nil && poolpoison.Aliased(out) {
+			r.Add("Value.MarshalTo|"+trig+"|result-aliases-pooled-buffer", "%s: the %d bytes returned by MarshalTo change when the pooled buffers are overwritten", what, len(out))
+		}
 		switch {
 		case pi != nil:
 			r.Add("Value.MarshalTo|"+trig+"|panic@"+pi.Site+":"+core.PanicClass(pi.Val), "%s: panic %s\n%s", what, pi.Val, pi.Stack)
